@@ -17,8 +17,11 @@ impl ResolvedFragment {
 
 pub(crate) fn fragment_is_recursive(fragment_id: ResolvedFragmentId, query: &Query) -> bool {
     let fragment = query.get_fragment(fragment_id);
+    let mut visited_fragments = Vec::new();
 
     query
         .walk_selection_set(&fragment.selection_set)
-        .any(|(_id, selection)| selection.contains_fragment(fragment_id, query))
+        .any(|(_id, selection)| {
+            selection.contains_fragment(fragment_id, query, &mut visited_fragments)
+        })
 }
